@@ -35,12 +35,12 @@ class Harness(cm.BaseB):
     )
 
     def bounds(self, tier):
-        return {"max_sequence_length": 3, "subsets": 255}
+        return {"max_sequence_length": 3 if tier == "quick" else 4, "subsets": 255}
 
     def chunks(self, tier):
         out = [{"k": "single"}, {"k": "invalid"}]
         out += [{"k": "subsets", "form": f} for f in ("asc", "desc", "dup")]
-        out += [{"k": "seq", "first": i} for i in range(16)]
+        out += [{"k": "seq", "first": i, "maxlen": 3 if tier == "quick" else 4} for i in range(16)]
         out += [{"k": "evo", "lo": lo} for lo in range(1, 256, 32)]
         return out
 
@@ -81,7 +81,7 @@ class Harness(cm.BaseB):
                         yield {"ep": ep, "tip": coll, "cont": cont}
         elif k == "seq":
             f = SYMS[chunk["first"]]
-            for n in (2, 3):
+            for n in range(2, chunk.get("maxlen", 3) + 1):
                 for rest in itertools.product(SYMS, repeat=n - 1):
                     for ep in ("aspirate_well", "dispense_well"):
                         yield {"ep": ep, "tip": [f] + list(rest)}
